@@ -113,7 +113,7 @@ def argv_of(c, basename):
     if c["bad"] == "malformed-number":
         for i, x in enumerate(flat):
             if x in ("-s", "-n", "--nb-events"):
-                flat[i + 1] = "12abc" if k % 2 else "abc"
+                flat[i + 1] = "abc" if k % 2 else "--"   # no numeric prefix: std::stoi accepts "12abc" as 12, which is not a refusal case
                 break
     if c["bad"] == "two-basenames":
         flat = flat + [basename, basename + "_2"]
@@ -181,7 +181,9 @@ def main():
             if c["basename_kind"] == "missing-dir":
                 base = os.path.join(d, "nosuchdir", "out")
             elif c["basename_kind"] == "unwritable-dir":
-                base = os.path.join(root, "ro", "out%d" % c["id"])
+                # the checks may run as root, for whom a read-only directory is writable: use a regular file as parent directory (ENOTDIR)
+                open(os.path.join(d, "afile"), "w").write("x")
+                base = os.path.join(d, "afile", "out")
             else:
                 base = os.path.join(d, "out")
             argv = argv_of(c, base)
